@@ -2,17 +2,18 @@
    Only theorem statements; every proof is `exact <lemma>`.  py_precise_diff / pd_add_duration are regenerated from /repo on
    every run (Gen/PreciseDiff.v), rs_precise_diff is the hand model of rust/src/python/helpers.rs, iv_components the hand model of
    the Interval properties (both tied by correspondence).  Domain of the universally quantified theorems: ordered pairs of
-   well-formed datetimes with zero UTC offset (naive, or both UTC) — `dt_pair` — for every year, no bound.
+   well-formed datetimes with zero UTC offset (naive, or both UTC) — `dt_pair` — or of plain dates — `date_pair`; `op_pair` is
+   either; every year, no bound other than the representable range 1..9999 where add_duration is involved.
    pd_spec (Proofs/C06Spec.v) is the arithmetic specification: time components = time-of-day difference with a one-day borrow,
-   months in 0..11, and the day/month part given by three cases (no day borrow / the "exactly a full month" arm / day borrow
-   through the previous month).  The middle case is the arm that is wrong unless the start day is the last day of that
-   previous month (finding exact-month-arm): pd_rebuild_refuted.  NOT proved here (pd_rebuild_partial): that outside that arm
-   pd_add_duration a (pd a b) = Ok b; the missing piece is the evaluation of the translated add_duration through
-   fields_of_wall (wall_of ...) — the calendrical identity clamp + days + borrow = end date follows from pd_spec by
-   min + max = sum and CalFacts.dbm_step; it is covered every run by the rebuild oracle on the enumerated shapes. *)
+   months in 0..11, and the day/month part given by three cases (no day borrow / the "exactly a full month" arm, taken only
+   when the start day is the last day of the month before the end month and the end day is the last day of its shorter
+   month / day borrow through the previous month).
+   pd_rebuild / pd_rust_rebuild (full strength since the repair of finding exact-month-arm): adding the reported components
+   back to the start with the translated helpers.add_duration gives exactly the end, for both backends.  Proof: symbolic in the
+   years and in the month lengths (Proofs/C06Rebuild.v: ymd2ord is linear in the day, one month back is dbm_step). *)
 From Coq Require Import ZArith Bool.
 From PV Require Import Lib.PyBase Spec.Cal Gen.Helpers Model.RustHelpers Model.PdBase Gen.PreciseDiff Model.RustPreciseDiff Model.PdInterval.
-From PV Require Import Proofs.C06Facts Proofs.C06Spec Proofs.C06Rust Proofs.C06Thms.
+From PV Require Import Proofs.C06Facts Proofs.C06Spec Proofs.C06Dates Proofs.C06Rebuild Proofs.C06Interval Proofs.C06Rust Proofs.C06Thms.
 Open Scope Z_scope.
 
 (* years >= 0, months 0..11, days 0..30, hours 0..23, minutes/seconds 0..59, microseconds 0..999999 *)
@@ -64,18 +65,82 @@ Theorem in_months_def : forall d e, iv_in_months (iv_components d e) = 12 * pd_y
 Proof. exact in_months_of_components. Qed.
 Print Assumptions in_months_def.
 
-(* current code: the rebuild property is false (2021-05-02 -> 2021-06-01 reports 1 month 0 days) *)
-Theorem pd_rebuild_refuted : exists a b r, dt_pair a b /\ p_wall a <= p_wall b /\ py_precise_diff a b = Ok r /\ in_ranges r /\ ~ rebuilds a b r.
-Proof. exact rebuild_refuted. Qed.
-Print Assumptions pd_rebuild_refuted.
+(* a + (b - a) = b, pure-Python helper: for every ordered pair of datetimes (zero offset) or dates, every year 1..9999, the
+   components are canonical and pd_add_duration a years months 0 days hours minutes seconds microseconds = Ok (the end, carrying
+   the tzinfo of the start) *)
+Theorem pd_rebuild : forall a b, op_pair a b -> 1 <= p_year a -> p_year b <= 9999 -> p_wall a <= p_wall b ->
+  exists r, py_precise_diff a b = Ok r /\ in_ranges r /\ rebuilds a b r.
+Proof. exact py_pd_rebuild. Qed.
+Print Assumptions pd_rebuild.
 
-Theorem pd_rebuild_refuted_clamped : exists a b r, dt_pair a b /\ p_wall a <= p_wall b /\ py_precise_diff a b = Ok r /\ ~ rebuilds a b r.
-Proof. exact rebuild_refuted_clamped. Qed.
-Print Assumptions pd_rebuild_refuted_clamped.
+(* the same for the compiled helper (hand model) *)
+Theorem pd_rust_rebuild : forall a b, op_pair a b -> 1 <= p_year a -> p_year b <= 9999 -> p_wall a <= p_wall b ->
+  in_ranges (rs_precise_diff a b true) /\ rebuilds a b (rs_precise_diff a b true).
+Proof. exact rs_pd_rebuild. Qed.
+Print Assumptions pd_rust_rebuild.
 
-Theorem pd_rust_rebuild_refuted : exists a b, dt_pair a b /\ p_wall a <= p_wall b /\ ~ rebuilds a b (rs_precise_diff a b true).
-Proof. exact rs_rebuild_refuted. Qed.
-Print Assumptions pd_rust_rebuild_refuted.
+(* operands carrying the same tzinfo: the rebuilt value is the end itself *)
+Theorem pd_rebuild_same_tzinfo : forall a b, op_pair a b -> same_tzinfo a b -> 1 <= p_year a -> p_year b <= 9999 -> p_wall a <= p_wall b ->
+  exists r, py_precise_diff a b = Ok r /\
+    pd_add_duration a (pd_years r) (pd_months r) 0 (pd_days r) (pd_hours r) (pd_minutes r) (pd_seconds r) (pd_microseconds r) = Ok b.
+Proof. exact py_pd_rebuild_same. Qed.
+Print Assumptions pd_rebuild_same_tzinfo.
+
+Theorem pd_rust_rebuild_same_tzinfo : forall a b, op_pair a b -> same_tzinfo a b -> 1 <= p_year a -> p_year b <= 9999 -> p_wall a <= p_wall b ->
+  let r := rs_precise_diff a b true in
+  pd_add_duration a (pd_years r) (pd_months r) 0 (pd_days r) (pd_hours r) (pd_minutes r) (pd_seconds r) (pd_microseconds r) = Ok b.
+Proof. exact rs_pd_rebuild_same. Qed.
+Print Assumptions pd_rust_rebuild_same_tzinfo.
+
+(* the Interval glue (hand model of the component properties and of DateTime.add / Date.add): a + (b - a), and add() with the
+   years, months, weeks, remaining_days, hours, minutes, remaining_seconds, microseconds of b - a, give the end — both backends.
+   (The elapsed Duration is modelled exactly; see finding interval-float-seconds for spans of 2^33 s or more.) *)
+Theorem iv_rebuild : forall a b, op_pair a b -> 1 <= p_year a -> p_year b <= 9999 -> p_wall a <= p_wall b ->
+  exists r, py_precise_diff a b = Ok r /\ dt_add_ivc a (iv_components r (iv_elapsed a b)) = Ok (p_retz a b).
+Proof. exact py_iv_rebuild. Qed.
+Print Assumptions iv_rebuild.
+
+Theorem iv_rust_rebuild : forall a b, op_pair a b -> 1 <= p_year a -> p_year b <= 9999 -> p_wall a <= p_wall b ->
+  dt_add_ivc a (iv_components (rs_precise_diff a b true) (iv_elapsed a b)) = Ok (p_retz a b).
+Proof. exact rs_iv_rebuild. Qed.
+Print Assumptions iv_rust_rebuild.
+
+(* any result that satisfies the specification is rebuilt (the step both theorems above go through) *)
+Theorem pd_spec_rebuilds : forall a b r, wf_op a -> wf_op b -> kind_ok a b -> 1 <= p_year a -> p_year b <= 9999 -> p_wall a < p_wall b ->
+  pd_spec a b r -> rebuilds a b r.
+Proof. exact spec_rebuilds. Qed.
+Print Assumptions pd_spec_rebuilds.
+
+(* plain dates: characterisation, ranges, and equality of the two backends *)
+Theorem pd_characterisation_dates : forall a b, date_pair a b -> p_wall a < p_wall b ->
+  match py_precise_diff a b with
+  | Ok r => pd_spec a b r /\
+            pd_total_days r = py_day_number (p_year b) (p_month b) (p_day b) - py_day_number (p_year a) (p_month a) (p_day a)
+  | Raise _ => False
+  end.
+Proof. exact py_pd_spec_date. Qed.
+Print Assumptions pd_characterisation_dates.
+
+Theorem pd_ranges_dates : forall a b, date_pair a b -> p_wall a <= p_wall b ->
+  exists r, py_precise_diff a b = Ok r /\ in_ranges r.
+Proof. exact py_pd_ranges_date. Qed.
+Print Assumptions pd_ranges_dates.
+
+Theorem pd_rust_eq_python_dates : forall a b e, date_pair a b -> 1 <= p_year a -> p_wall a < p_wall b ->
+  py_precise_diff a b = Ok (rs_precise_diff a b e).
+Proof. exact rs_eq_py_date. Qed.
+Print Assumptions pd_rust_eq_python_dates.
+
+(* the former witnesses of finding exact-month-arm (2021-05-02 -> 2021-06-01, 2021-01-30 -> 2021-02-27): 30 / 28 days, rebuilt, both backends *)
+Theorem pd_rebuild_former_witnesses :
+  py_precise_diff (naive_dt 2021 5 2 0 0 0 0) (naive_dt 2021 6 1 0 0 0 0) = Ok (mkPD 0 0 30 0 0 0 0 30) /\
+  rs_precise_diff (naive_dt 2021 5 2 0 0 0 0) (naive_dt 2021 6 1 0 0 0 0) true = mkPD 0 0 30 0 0 0 0 30 /\
+  rebuilds (naive_dt 2021 5 2 0 0 0 0) (naive_dt 2021 6 1 0 0 0 0) (mkPD 0 0 30 0 0 0 0 30) /\
+  py_precise_diff (naive_dt 2021 1 30 0 0 0 0) (naive_dt 2021 2 27 0 0 0 0) = Ok (mkPD 0 0 28 0 0 0 0 28) /\
+  rs_precise_diff (naive_dt 2021 1 30 0 0 0 0) (naive_dt 2021 2 27 0 0 0 0) true = mkPD 0 0 28 0 0 0 0 28 /\
+  rebuilds (naive_dt 2021 1 30 0 0 0 0) (naive_dt 2021 2 27 0 0 0 0) (mkPD 0 0 28 0 0 0 0 28).
+Proof. exact former_witnesses_rebuild. Qed.
+Print Assumptions pd_rebuild_former_witnesses.
 
 (* current code: outside the zero-offset domain the two backends differ (cross-zone pair whose UTC shift leaves the month) *)
 Theorem pd_rust_eq_python_cross_zone_refuted : exists a b,
